@@ -28,6 +28,16 @@ static mjModel* c05_custom(unsigned long long seed) {
   mjg_rng R = { seed * 0x9E3779B97F4A7C15ULL + 99 }; mjg_rng* r = &R;
   mjSpec* s = mj_makeSpec();
   s->option.timestep = 0.002 * (1 + mjg_int(r, 4));
+  // fluid medium (own random stream): density / viscosity / wind, bodies with several geoms of mixed fluidshape in every order
+  mjg_rng FR = { seed * 0xD1B54A32D192ED03ULL + 555 }; mjg_rng* fr = &FR;
+  int fluid = mjg_chance(fr, 0.75);
+  if (fluid) {
+    static const double dens[4] = {1000, 1.2, 0, 50}, visc[4] = {0.5, 1.8e-5, 0.02, 0};
+    // viscosity only: with density > 0 the ellipsoid-fluid derivative of capsule / cylinder geoms on non-free bodies is not the
+    // derivative of the force on HEAD (see build/scratch/C05/fluid_probe.c, reported); density is exercised with the inertia-box model on mjgen models
+    int c = mjg_int(fr, 4); (void)dens; (void)c; s->option.density = 0; s->option.viscosity = visc[mjg_int(fr, 3)];
+    if (mjg_chance(fr, 0.5)) for (int k = 0; k < 3; k++) s->option.wind[k] = mjg_range(fr, -2, 2);
+  }
   mjsBody* world = mjs_findBody(s, "world");
   mjsBody* bd[5]; const char* jn[5] = {"j0", "j1", "j2", "j3", "j4"};
   int parent[5] = {-1, 0, 0, 1, 2};
@@ -40,10 +50,25 @@ static mjModel* c05_custom(unsigned long long seed) {
     if (fabs(j->axis[0]) + fabs(j->axis[1]) + fabs(j->axis[2]) < 0.2) j->axis[1] = 1;
     if (mjg_chance(r, 0.5)) j->damping[0] = mjg_range(r, 0, 1.5);
     mjsGeom* g = mjs_addGeom(bd[b], NULL); g->type = mjGEOM_CAPSULE; g->size[0] = 0.04; g->size[1] = 0.1; g->pos[0] = 0.1; g->contype = 0; g->conaffinity = 0;
+    if (fluid) {
+      int extra = b == 0 ? 1 : mjg_int(fr, 3);
+      g->fluid_ellipsoid = b == 0 ? 1 : mjg_int(fr, 2);          // body 0: [ellipsoid, none]
+      for (int e = 0; e < extra; e++) {
+        mjsGeom* g2 = mjs_addGeom(bd[b], NULL); int t = mjg_int(fr, 3);
+        g2->type = t == 0 ? mjGEOM_BOX : t == 1 ? mjGEOM_ELLIPSOID : mjGEOM_CYLINDER;
+        g2->size[0] = mjg_range(fr, 0.03, 0.08); g2->size[1] = mjg_range(fr, 0.03, 0.12); g2->size[2] = mjg_range(fr, 0.03, 0.1);
+        g2->pos[1] = mjg_range(fr, -0.1, 0.1); g2->pos[2] = mjg_range(fr, -0.1, 0.1); g2->contype = 0; g2->conaffinity = 0;
+        g2->fluid_ellipsoid = b == 0 ? 0 : mjg_int(fr, 2);
+      }
+    }
   }
   if (mjg_chance(r, 0.5)) {
     mjsBody* fbd = mjs_addBody(world, NULL); fbd->pos[0] = 3; fbd->pos[2] = 2; mjs_addFreeJoint(fbd);
     mjsGeom* g = mjs_addGeom(fbd, NULL); g->type = mjGEOM_BOX; g->size[0] = 0.05; g->size[1] = 0.1; g->size[2] = 0.2; g->contype = 0; g->conaffinity = 0;
+    if (fluid) {
+      g->fluid_ellipsoid = mjg_int(fr, 2);
+      if (mjg_chance(fr, 0.7)) { mjsGeom* g2 = mjs_addGeom(fbd, NULL); g2->type = mjGEOM_SPHERE; g2->size[0] = 0.07; g2->pos[0] = 0.15; g2->contype = 0; g2->conaffinity = 0; g2->fluid_ellipsoid = mjg_int(fr, 2); }
+    }
   }
   // tendon t0 couples the sibling branches (j1 | j2), t1 runs along one chain (j1, j3), t2 couples j3 and j4 (cousins)
   const char* tj[3][2] = {{"j1", "j2"}, {"j1", "j3"}, {"j3", "j4"}}; const char* tn[3] = {"t0", "t1", "t2"};
@@ -248,6 +273,7 @@ int main(void) {
         m->actuator_group[i] = mjg_int(&r, 3);
       }
       if (mjg_chance(&r, 0.2)) m->opt.disableactuator = 1 << mjg_int(&r, 3);
+      if (!custom && (rep % 3) == 1) { mjg_rng f2 = {seed * 977 + rep}; m->opt.density = mjg_chance(&f2, 0.5) ? 1000 : 1.2; m->opt.viscosity = mjg_chance(&f2, 0.5) ? 0.3 : 0; if (mjg_chance(&f2, 0.5)) m->opt.wind[0] = mjg_range(&f2, -2, 2); }
       for (int i = 0; i < m->nv && !custom; i++) if (m->jnt_type[m->dof_jntid[i]] != mjJNT_FREE && mjg_chance(&r, 0.5)) m->dof_damping[i] = mjg_range(&r, 0, 2);
       for (int i = 0; i < m->ntendon && !custom; i++) if (mjg_chance(&r, 0.5)) m->tendon_damping[i] = mjg_range(&r, 0, 1);
       m->opt.disableflags |= dflags;
